@@ -395,13 +395,13 @@ def run(chk):
     for kind in ('array-fixed', 'array-open', 'pointer'):
         cases.append(P + (('slice', kind),))
     for src in ('list', 'cdata', 'bytes'):
-        cases.append(P + (('ass_slice', src, 3 if quick else 5),))
+        cases.append(P + (('ass_slice', src, 3 if quick else 6),))
     for isz in (1, 2, 4, 8, 12, 24):
         cases.append(P + (('arith', isz),))
     chk.bounds = {'index / slice bounds': 'any Python int', 'array length': 'any value 0..2^63-1',
                   'item size': '1..2^20 (symbolic) for indexing/slicing; {1,2,4,8,12,24} for pointer arithmetic',
                   'data pointer': 'any 64-bit address', 'slice assignment': 'arrays of %d items, every [i:j], 0..%d values from '
-                  'a list / a cdata array / bytes' % ((3, 4) if quick else (5, 6))}
+                  'a list / a cdata array / bytes' % ((3, 4) if quick else (6, 7))}
     chk.outside = ['ffi.addressof(x, i) and ffi.offsetof("T[]", i) (direct_typeoffsetof)', 'items of unknown size, void*',
                    'longer arrays in slice assignment (loop body identical per item)']
     chk.assume('CPython API contracts of vf/pystubs.py (PyNumber_AsSsize_t, PyLong_AsSsize_t, PyObject_GetIter/tp_iternext)')
